@@ -33,6 +33,7 @@ THEOREMS = [
     'Nb.C10.second_run_levels_le', 'Nb.C10.logRaise_spec', 'Nb.C10.check_fix_failfast_counterexample',
     'Nb.C10.from_header_preserves', 'Nb.C10.from_header_fields_castable',
     'Nb.C10.from_header_preserves_dtype_shape_zooms', 'Nb.C10.from_header_targets_ok',
+    'Nb.C10.fromHeaderPixG_eq_fromHeaderPix',
     'Nb.C10.copy_fresh_buffer', 'Nb.C10.copy_alias_counterexample',
     'Nb.C10.from_header_preserves_zooms', 'Nb.C10.from_header_pixdim_beyond_ndim_counterexample',
     'Nb.C10.layouts_wf', 'Nb.C10.layouts_declared_sizes', 'Nb.C10.layouts_names_distinct',
